@@ -83,9 +83,9 @@ pub fn profile(name: &str) -> Profile {
     };
     match name {
         "C01" => Profile { name: "C01", w_token: 8, reuse_bias: 4, kinds: [4, 3, 3, 4, 1, 0, 0, 5, 0], w_cause: 10, err_returns: true, ..base },
-        "C02" => Profile { name: "C02", w_cause: 12, max_sources: 8, kinds: [3, 3, 2, 6, 0, 0, 0, 0, 0], ..base },
-        "C03" => Profile { name: "C03", kinds: [10, 0, 1, 1, 0, 0, 0, 0, 0], w_cause: 12, ..base },
-        "C04" => Profile { name: "C04", kinds: [1, 10, 1, 0, 0, 0, 0, 0, 0], w_cause: 14, ..base },
+        "C02" => Profile { name: "C02", w_cause: 12, max_sources: 8, kinds: [3, 3, 2, 6, 0, 0, 0, 0, 0], err_returns: true, ..base },
+        "C03" => Profile { name: "C03", kinds: [10, 0, 1, 2, 0, 0, 0, 0, 0], w_cause: 12, err_returns: true, ..base },
+        "C04" => Profile { name: "C04", kinds: [1, 10, 1, 1, 0, 0, 0, 0, 0], w_cause: 14, err_returns: true, ..base },
         "C05" => Profile { name: "C05", kinds: [2, 1, 10, 1, 0, 0, 0, 0, 0], w_advance: 6, err_returns: true, ..base },
         "C06" => Profile { name: "C06", w_token: 9, w_insert: 7, reuse_bias: 3, ..base },
         "C07" => Profile { name: "C07", w_token: 10, err_returns: true, ..base },
